@@ -164,11 +164,11 @@ func (mw *msgWriter) writeMsg(msg *Msg) {
 	if msg.hasPGPType() {
 		switch msg.pgptype {
 		case PGPEncrypt:
-			mw.startMP(`encrypted; protocol="application/pgp-encrypted"`,
-				msg.boundary)
+			mimeType := MIMEType(`encrypted; protocol="application/pgp-encrypted"`)
+			msg.multiPartBoundary[mimeType] = mw.startMP(mimeType, mw.getMultipartBoundary(msg, mimeType))
 		case PGPSignature:
-			mw.startMP(`signed; protocol="application/pgp-signature";`,
-				msg.boundary)
+			mimeType := MIMEType(`signed; protocol="application/pgp-signature";`)
+			msg.multiPartBoundary[mimeType] = mw.startMP(mimeType, mw.getMultipartBoundary(msg, mimeType))
 		default:
 		}
 		mw.writeString(DoubleNewLine)
